@@ -59,6 +59,13 @@ def cases(tier, seed):
     for i in range(n_ref):
         out.append({'name': 'refine-%d' % i, 'kind': 'refine',
                     'seed': [seed, 3, i]})
+    for n, nm in enumerate(drive.repo_inputs()):
+        # the repository's own example inputs (271-pin bundles, tabulated
+        # sodium, shield/plenum regions, double ducts, duct heating)
+        if tier == 'quick' and n % 3:
+            continue
+        out.append({'name': 'repo-' + nm[6:-4], 'kind': 'repo', 'input': nm,
+                    'seed': [seed, 9, n]})
     return out
 
 
@@ -427,8 +434,12 @@ def run_case(case):
         except drive.Rejected as e:
             res.status('rejected', str(e))
         return res
-    P, feats = build_problem(case)
-    key = {k: feats.get(k) for k in ('nr', 'n_duct', 'gap', 'tdep')}
+    if case['kind'] == 'repo':
+        P, feats = None, {'repo_input': case['input']}
+        key = {'repo_input': case['input']}
+    else:
+        P, feats = build_problem(case)
+        key = {k: feats.get(k) for k in ('nr', 'n_duct', 'gap', 'tdep')}
     rng = np.random.default_rng(case['seed'] + [99])
     state = {'steps': 0}
 
@@ -466,13 +477,18 @@ def run_case(case):
 
     try:
         with drive.scratch() as d, Hooks() as hk:
-            inp, r = drive.build(P, d, max_steps=MAX_STEPS)
+            if P is None:
+                inp, r = drive.build_repo_input(case['input'], d,
+                                                max_steps=MAX_STEPS)
+                res.tag('repo_input')
+            else:
+                inp, r = drive.build(P, d, max_steps=MAX_STEPS)
             if len(r.z) > 6000:
                 res.status('rejected', 'too many steps (%d)' % len(r.z))
                 res.tag('skipped_too_many_steps')
                 return res
             StepMonitor(hk, on_step, on_rc)
-            T_in = P['inlet']
+            T_in = float(r.inlet_temp)
             probed = [0]
 
             def after(i):
